@@ -19,7 +19,7 @@ import (
 // ---------------------------------------------------------------------------
 
 const (
-	MaxSlots = 512
+	MaxSlots = 4096
 
 	stFree     = 0
 	stEmbryo   = 1 // Spawn() done, `go` statement not yet executed
@@ -117,6 +117,7 @@ var (
 	pipeOK    [MaxSlots]bool
 	noPreempt int32
 	liveTasks int32
+	hiSlot    int32 // slots [0,hiSlot) have been used in this run
 
 	strat      int
 	prioRule   int
@@ -168,6 +169,7 @@ func Start(cfg *SchedConfig) {
 		slotState[i] = stFree
 		slotBegun[i] = false
 	}
+	hiSlot = 1
 	for i := range wgKeys {
 		wgKeys[i] = 0
 		wgCnt[i] = 0
@@ -317,6 +319,7 @@ func ensurePipe(slot int32) {
 	var p [2]int32
 	_, _, e := syscall.RawSyscall(syscall.SYS_PIPE2, uintptr(unsafe.Pointer(&p)), uintptr(syscall.O_CLOEXEC), 0)
 	if e != 0 {
+		abortWhy = "pipe2 failed"
 		abort(AbortInternal)
 	}
 	pipeR[slot], pipeW[slot] = int(p[0]), int(p[1])
@@ -333,6 +336,7 @@ func wake(slot int32) {
 			continue
 		}
 		if e != 0 || n != 1 {
+			abortWhy = "wake: write failed"
 			abort(AbortInternal)
 		}
 		return
@@ -350,11 +354,18 @@ func park(slot int32) {
 			continue
 		}
 		if e != 0 || n != 1 {
+			abortWhy = "park: read failed"
 			abort(AbortInternal)
 		}
 		return
 	}
 }
+
+// abortWhy says which internal condition failed (harness trouble).
+var abortWhy string
+
+// AbortReason returns the reason of the last internal abort.
+func AbortReason() string { return abortWhy }
 
 //go:norace
 func abort(kind int) {
@@ -463,7 +474,7 @@ func runProbe() {
 
 //go:norace
 func slotOfTID(tid int32) int32 {
-	for i := int32(0); i < MaxSlots; i++ {
+	for i := int32(0); i < hiSlot; i++ {
 		if slotState[i] != stFree && slotTID[i] == tid {
 			return i
 		}
@@ -479,21 +490,21 @@ func choose(forced bool, reason int8) int32 {
 	best := int32(-1)
 	switch strat {
 	case StratPrio:
-		for i := int32(0); i < MaxSlots; i++ {
+		for i := int32(0); i < hiSlot; i++ {
 			if slotState[i] == stRunnable && (best < 0 || slotPrio[i] > slotPrio[best]) {
 				best = i
 			}
 		}
 	case StratRW:
 		n := 0
-		for i := int32(0); i < MaxSlots; i++ {
+		for i := int32(0); i < hiSlot; i++ {
 			if slotState[i] == stRunnable {
 				n++
 			}
 		}
 		if n > 0 {
 			k := int(rwRand.Uint64() % uint64(n))
-			for i := int32(0); i < MaxSlots; i++ {
+			for i := int32(0); i < hiSlot; i++ {
 				if slotState[i] == stRunnable {
 					if k == 0 {
 						best = i
@@ -519,7 +530,7 @@ func choose(forced bool, reason int8) int32 {
 				best = curSlot
 			} else {
 				// default: lowest task id
-				for i := int32(0); i < MaxSlots; i++ {
+				for i := int32(0); i < hiSlot; i++ {
 					if slotState[i] == stRunnable && (best < 0 || slotTID[i] < slotTID[best]) {
 						best = i
 					}
@@ -549,6 +560,7 @@ func resched(site int32, reason int8) {
 	}
 	n := choose(false, reason)
 	if n < 0 {
+		abortWhy = "resched: nothing runnable"
 		abort(AbortInternal)
 	}
 	record(n, reason, site)
@@ -586,6 +598,7 @@ func handover(to int32, site int32, parkSelf bool) {
 //go:norace
 func block(site int32) {
 	if noPreempt > 0 {
+		abortWhy = "block inside no-preempt section"
 		abort(AbortInternal) // blocking inside a no-preempt section is not supported
 	}
 	stats.BlockedTimes++
@@ -604,7 +617,7 @@ func block(site int32) {
 //go:norace
 func afterSync(site int32) {
 	woke := false
-	for i := int32(0); i < MaxSlots; i++ {
+	for i := int32(0); i < hiSlot; i++ {
 		if slotState[i] == stBlocked {
 			slotState[i] = stRunnable
 			woke = true
@@ -628,13 +641,18 @@ func Spawn() int32 {
 		return -1
 	}
 	s := int32(-1)
-	for i := int32(0); i < MaxSlots; i++ {
+	for i := int32(0); i < hiSlot; i++ {
 		if slotState[i] == stFree {
 			s = i
 			break
 		}
 	}
+	if s < 0 && hiSlot < MaxSlots {
+		s = hiSlot
+		hiSlot++
+	}
 	if s < 0 {
+		abortWhy = "no free task slot"
 		abort(AbortInternal)
 	}
 	ensurePipe(s)
@@ -660,7 +678,7 @@ func Spawned() {
 		return
 	}
 	any := false
-	for i := int32(0); i < MaxSlots; i++ {
+	for i := int32(0); i < hiSlot; i++ {
 		if slotState[i] == stEmbryo && slotOwner[i] == curSlot {
 			slotState[i] = stRunnable
 			any = true
@@ -690,12 +708,13 @@ func TaskEnd(slot int32) {
 		return
 	}
 	if !active || curSlot != slot {
+		abortWhy = "TaskEnd by a task that does not hold the baton"
 		abort(AbortInternal)
 	}
 	slotState[slot] = stFree
 	liveTasks--
 	// everything blocked may retry (e.g. a WaitGroup.Wait after our Done)
-	for i := int32(0); i < MaxSlots; i++ {
+	for i := int32(0); i < hiSlot; i++ {
 		if slotState[i] == stBlocked {
 			slotState[i] = stRunnable
 		}
@@ -808,6 +827,7 @@ func wgShadowAdd(p uintptr, d int64) int64 {
 		return 0
 	}
 	if free < 0 {
+		abortWhy = "waitgroup shadow table full"
 		abort(AbortInternal)
 	}
 	wgKeys[free] = p
